@@ -86,7 +86,8 @@ def engine_cases(
     failing = [j for j, jb in enumerate(jobs) if jb["code"] or jb.get("launch_error")]
     tail = []
     if dups and failing and chance(draw, 40):
-        tail.append(["resubmit", draw(st.sampled_from(failing))])
+        holding = [j for j in failing if any(toks[ti]["kind"] == "file" for ti, _ in jobs[j]["toks"])]
+        tail.append(["resubmit", draw(st.sampled_from(holding if holding and chance(draw, 70) else failing))])
     if chance(draw, wait_pct):
         extras.append(["wait"])
     file_toks = [ti for ti, t in enumerate(toks) if t["kind"] == "file"]
@@ -118,12 +119,26 @@ def engine_cases(
         plan.insert(pos, e)
     for e in tail:
         # a re-submission waits (head of the plan) until that job has failed
-        plan.insert(draw(st.integers(max(0, len(plan) - 2), len(plan))), e)
+        first = next(i for i, op in enumerate(plan) if op[0] == "submit" and op[1] == e[1])
+        late = max(first + 1, len(plan) - 2)
+        # (mostly near the end; sometimes right after the first submission, other jobs being submitted
+        # while the job runs for the second time)
+        plan.insert(draw(st.integers(late, len(plan))) if chance(draw, 60) else draw(st.integers(first + 1, len(plan))), e)
     sched = draw(st.lists(st.integers(0, 7), max_size=max_sched))
     case = {"tokens": toks, "jobs": jobs, "plan": plan, "sched": sched}
-    if foreign and file_toks and any(e[0] in ("facq", "fopen") for e in extras) and chance(draw, 35):
+    if chance(draw, 50):
+        case["tailseed"] = draw(st.integers(1, 1 << 20))
+    if chance(draw, 30):
+        case["deporder"] = 1  # dependency sets are walked in reverse insertion order
+    if foreign and file_toks and chance(draw, 50 if tail else 20):
+        # another live scheduler has the tokens open all along (it watches every job of ours)
+        case["observer"] = True
+    if foreign and file_toks and (case.get("observer") or any(e[0] in ("facq", "fopen") for e in extras)) and chance(draw, 35):
         # threads of the other schedulers that watch our jobs run before our scheduler handles the exit
         case["reclaim_first"] = True
+    elif case.get("observer") and tail and chance(draw, 70):
+        # ... or only after the failed job they watched has been submitted again
+        case["reclaim_late"] = True
     if runs2_pct and chance(draw, runs2_pct):
         case["runs"] = 2
         if toks and chance(draw, 50):
